@@ -589,9 +589,9 @@ void SDMXcontract_ao_to_bas_grid(int ngrids, double *vbas, double *ylm_lg,
 void SDMXcontract_ao_to_bas_grid_bwd(int ngrids, double *vbas, double *ylm_lg,
                                      double *ao, int *shls_slice, int *ao_loc,
                                      int *ylm_atom_loc, int *atm, int natm,
-                                     int *bas, int nbas, double *env,
-                                     double *gridx, double *atomx, int nrf,
-                                     int *rf_loc) {
+                                     int *bas, int nbas, double *env, int nrf,
+                                     int *rf_loc, double *gridx,
+                                     double *atomx) {
 #pragma omp parallel
     {
         // NOTE: This is an in-place operation and ads to ao.
